@@ -665,4 +665,81 @@ theorem updateVar_nondict (fx : Bool) (cv : Option V) (hcv : ∀ d, cv ≠ some 
 
 end
 
+section
+variable {names : List String} {D : Type}
+
+theorem setSlot_setSlot (l : Slots) (i : Nat) (v w : Option V) : setSlot (setSlot l i v) i w = setSlot l i w := by
+  induction l generalizing i with
+  | nil =>
+    induction i with
+    | zero => rfl
+    | succ i ih => simp [setSlot, ih]
+  | cons x r ih =>
+    cases i with
+    | zero => rfl
+    | succ i => simp [setSlot, ih i]
+
+/-- the data of a chain: the getters applied in order -/
+def chainData (vars : List (Variable D)) (d : D) : D := vars.foldl (fun x v => v.getter x) d
+
+theorem composeGetter_eq (vars : List (Variable D)) : composeGetter vars = chainData vars := rfl
+
+/-- a chain applied to a value whose `context.variable` is a well-formed dictionary `p`: the getters are
+applied in order, `context.variable` becomes the fold of `UP` from `p`, nothing else changes -/
+theorem seqCall_dict (hn : NamesOK names) (rest : List (Variable D)) (v : Variable D) (d : D) (c p : Slots)
+    (hc : getSlot c (kVariable names) = some (.dict p)) (hp : VarWF names p) (hv : VarWF names v.varCtx)
+    (hr : ∀ w ∈ rest, VarWF names w.varCtx) :
+    seqCall names true (v :: rest) (.pair d c) =
+      .ok (chainData (v :: rest) d,
+           setSlot c (kVariable names) (some (.dict ((rest.map Variable.varCtx).foldl (UP names) (UP names p v.varCtx))))) := by
+  induction rest generalizing v d c p with
+  | nil =>
+    simp only [seqCall, call, getDataContext, updateContext, hc, updateVar_eq_UP hn hp hv]
+    rfl
+  | cons w r ih =>
+    have hw := hr w (by simp)
+    have hstep : seqCall names true (v :: w :: r) (.pair d c) =
+        seqCall names true (w :: r) (.pair (v.getter d) (setSlot c (kVariable names) (some (.dict (UP names p v.varCtx))))) := by
+      simp only [seqCall, call, getDataContext, updateContext, hc, updateVar_eq_UP hn hp hv]
+    rw [hstep, ih w (v.getter d) _ (UP names p v.varCtx) (by simp [getSlot_setSlot]) (VarWF_UP hn hp hv) hw
+      (fun u hu => hr u (by simp [hu]))]
+    simp only [setSlot_setSlot, chainData, List.foldl_cons, List.map_cons]
+
+theorem dictUpdate_empty (hn : NamesOK names) (a : Slots) (ha : a.length = names.length) :
+    dictUpdate a (setSlot (emptyD names.length) (kName names) none) = a := by
+  have hl : (setSlot (emptyD names.length) (kName names) none).length = names.length := by
+    rw [length_setSlot _ _ _ (by simpa using hn.kName_lt)]; simp
+  apply slots_ext
+  · rw [length_dictUpdate _ _ (ha.trans hl.symm)]
+  · intro i
+    rw [getSlot_dictUpdate, getSlot_setSlot]
+    by_cases h : i = kName names <;> simp [h]
+
+/-- `Compose(v₁, …, vₙ)` of well-formed, named variables is constructed without an exception; its getter
+applies the getters in order and its `var_context` is the fold of `UP` over the variables' contexts -/
+theorem mkCompose_ok (hn : NamesOK names) (v1 : Variable D) (rest : List (Variable D))
+    (hv : ∀ v ∈ v1 :: rest, VarWF names v.varCtx ∧ (getSlot v.varCtx (kName names)).isSome = true) :
+    mkCompose names true ((v1 :: rest).map some) (emptyD names.length) =
+      .ok ⟨chainData (v1 :: rest), (rest.map Variable.varCtx).foldl (UP names) v1.varCtx⟩ := by
+  have hall : (List.map some (v1 :: rest)).all Option.isSome = true := by simp
+  have hfm : List.filterMap id (List.map some (v1 :: rest)) = v1 :: rest := by
+    simp [List.filterMap_map]
+  have hfold := composeFold_eq hn (rest.map Variable.varCtx) v1.varCtx (hv v1 (by simp)).1
+    (by intro b hb; obtain ⟨w, hw, rfl⟩ := List.mem_map.1 hb; exact (hv w (by simp [hw])).1)
+  have hlast := hv ((v1 :: rest).getLast (by simp)) (List.getLast_mem _)
+  have hwf := VarWF_foldl hn (rest.map Variable.varCtx) v1.varCtx (hv v1 (by simp)).1
+    (by intro b hb; obtain ⟨w, hw, rfl⟩ := List.mem_map.1 hb; exact (hv w (by simp [hw])).1)
+  unfold mkCompose
+  simp only [hall, hfm, Bool.not_true, Bool.false_eq_true, if_false, hfold]
+  have hg : hasKey (emptyD names.length) (kGetter names) = false := by simp [hasKey]
+  have hnm : getSlot (emptyD names.length) (kName names) = none := by simp
+  simp only [hg, Bool.false_eq_true, if_false, hnm, nameOf]
+  cases hl : getSlot ((v1 :: rest).getLast (by simp)).varCtx (kName names) with
+  | none => rw [hl] at hlast; cases hlast.2
+  | some nm =>
+    simp only [dictUpdate_empty hn _ hwf.len]
+    rfl
+
+end
+
 end Lena.C14
